@@ -9,7 +9,7 @@ func init() {
 				Quick: map[string]int{"k": 2, "maporder": 1}, Thorough: map[string]int{"k": 2, "maporder": 2},
 				Reach: []string{"two runs compared"}, Functions: pipelineFns},
 			{Name: "batch-interleavings", Pkg: ".", Files: []string{"root/fed.go", "root/c01.go", "root/c08.go"}, Entry: "VerifBatch", Mode: "all", Race: true,
-				Quick: map[string]int{"rmax": 2, "classes": 12}, Thorough: map[string]int{"rmax": 2, "classes": 12},
+				Quick: map[string]int{"rmax": 2, "classes": 14}, Thorough: map[string]int{"rmax": 2, "classes": 14},
 				Reach: []string{"batch of several"}, Functions: []string{"(*Gateway).queryHandler", "(*Gateway).queryHandler$1", "(*Gateway).queryHandler$2", "common.AsyncMapReduce[int,*Result,Results]"}},
 			{Name: "repeat-mixed-introspection", Pkg: ".", Files: []string{"root/fed.go", "root/c01.go", "root/c14g.go"}, Entry: "VerifCacheGateway", Mode: "seq",
 				Quick: map[string]int{"hmax": 2, "mixedpool": 1, "maporder": 1}, Thorough: map[string]int{"hmax": 3, "mixedpool": 1, "maporder": 2},
